@@ -4,7 +4,7 @@ import os
 from .. import core
 
 SEGS = {"a.txt", "a.css", "sub", "b.js", "..", ".", "", "secret.txt", "secret.css", "%2e%2e", "sub%2f..", "..%2fsecret.txt",
-        "..%2f..%2fsecret.css", "a.txt.", "index.html", "root-internal", "key.css", "c.mjs", "%252e%252e", "%252e%252e%252fsecret.txt"}
+        "..%2f..%2fsecret.css", "a.txt.", "index.html", "root-internal", "key.css", "c.mjs", "%252e%252e", "%252e%252e%252fsecret.txt", "lib.js"}
 
 
 def scfg(maxsegs, emit=True, **dev):
